@@ -29,7 +29,7 @@ def codes(s):
 def spell(rng, period, f, off, style=None):
     """one of the spellings xarray / users write for the same reference time"""
     y, mo, d, h, mi, s = f
-    style = style or rng.choice(['iso', 'space', 'noseconds', 'short_offset', 'compact_offset', 'loose'])
+    style = style or rng.choice(['iso', 'space', 'noseconds', 'short_offset', 'compact_offset', 'loose', 'no_offset', 'date_only'])
     sign = '-' if off < 0 else '+'
     a = abs(off)
     if style == 'iso':
@@ -44,6 +44,11 @@ def spell(rng, period, f, off, style=None):
         return f'{period} since {y:04d}-{mo:02d}-{d:02d}T{h:02d}:{mi:02d}:{s:02d}{sign}{a // 60:02d}{a % 60:02d}', style
     if style == 'loose':
         return f'{period} since {y}-{mo}-{d} {h}:{mi:02d}:{s:02d} {sign}{a // 60:02d}:{a % 60:02d}', style
+    if style == 'no_offset' and off == 0:
+        # UTC understood: no zone designator at all (the most common spelling in files written by other tools)
+        return f'{period} since {y:04d}-{mo:02d}-{d:02d} {h:02d}:{mi:02d}:{s:02d}', style
+    if style == 'date_only' and off == 0 and (h, mi, s) == (0, 0, 0):
+        return f'{period} since {y:04d}-{mo:02d}-{d:02d}', style
     return spell(rng, period, f, off, 'space')
 
 
@@ -153,7 +158,15 @@ def run(ctx):
                 # epochs outside the range of 64-bit nanoseconds: xarray decodes such a time axis to cftime objects
                 f = (rng.choice([1600, 2300, 1066]),) + f[1:]
             ctx.count(f'epoch:{"within datetime64[ns]" if 1700 < f[0] < 2250 else "outside datetime64[ns] (cftime)"}')
-            units, style = spell(rng, period, f, off, rng.choice(['iso', 'space', 'short_offset']))
+            if n % 3 == 2:
+                # a reference time in UTC written without any zone designator, every other one without a time of day
+                off = 0
+                if n % 2 == 0:
+                    f = f[:3] + (0, 0, 0)
+                units, style = spell(rng, period, f, off, 'date_only' if n % 2 == 0 else 'no_offset')
+            else:
+                units, style = spell(rng, period, f, off, rng.choice(['iso', 'space', 'short_offset']))
+            ctx.count(f'reference time spelled:{style}')
             # whole seconds only: decoding to nanoseconds goes through float64, sub-second instants far from the epoch
             # are not exactly representable (an artefact of the input, not of emsarray)
             tvals = numpy.arange(nt, dtype='f8') * (rng.choice([1, 2, 30]) if period == 'seconds' else rng.choice([1, 2, 0.5, 0.25]))
